@@ -43,7 +43,11 @@ func desiredResource(gvk schema.GroupVersionKind, param string) *fnv1.Resource {
 	return &fnv1.Resource{Resource: s, Ready: fnv1.Ready_READY_TRUE}
 }
 
-// fn is the scripted composition function: desired = {a: ResA, b: ResB}.
+// wantB says whether the scripted function still desires resource b.
+var wantB = true
+
+// fn is the scripted composition function: desired = {a: ResA, b: ResB}
+// (b only while wantB).
 func fn(_ context.Context, _ string, req *fnv1.RunFunctionRequest) (*fnv1.RunFunctionResponse, error) {
 	param := ""
 	if f := req.GetObserved().GetComposite().GetResource().GetFields()["spec"]; f != nil {
@@ -55,10 +59,13 @@ func fn(_ context.Context, _ string, req *fnv1.RunFunctionRequest) (*fnv1.RunFun
 	return &fnv1.RunFunctionResponse{
 		Desired: &fnv1.State{
 			Composite: &fnv1.Resource{Resource: xr},
-			Resources: map[string]*fnv1.Resource{
-				"a": desiredResource(xrh.ResA, param),
-				"b": desiredResource(xrh.ResB, param),
-			},
+			Resources: func() map[string]*fnv1.Resource {
+				m := map[string]*fnv1.Resource{"a": desiredResource(xrh.ResA, param)}
+				if wantB {
+					m["b"] = desiredResource(xrh.ResB, param)
+				}
+				return m
+			}(),
 		},
 		Context: req.GetContext(),
 	}, nil
@@ -96,9 +103,11 @@ func setup(r *explore.Run, sc scenario) *world {
 		comp = xrh.PipelineComposition("comp", "step1")
 	} else {
 		from := "spec.param"
+		req := v1.FromFieldPathPolicyRequired
+		pol := &v1.PatchPolicy{FromFieldPath: &req}
 		comp = xrh.ResourcesComposition("comp",
-			xrh.Template{Name: "a", GVK: xrh.ResA, Patches: []v1.Patch{{Type: v1.PatchTypeFromCompositeFieldPath, FromFieldPath: &from, ToFieldPath: &from}}},
-			xrh.Template{Name: "b", GVK: xrh.ResB, Patches: []v1.Patch{{Type: v1.PatchTypeFromCompositeFieldPath, FromFieldPath: &from, ToFieldPath: &from}}},
+			xrh.Template{Name: "a", GVK: xrh.ResA, Patches: []v1.Patch{{Type: v1.PatchTypeFromCompositeFieldPath, FromFieldPath: &from, ToFieldPath: &from, Policy: pol}}},
+			xrh.Template{Name: "b", GVK: xrh.ResB, Patches: []v1.Patch{{Type: v1.PatchTypeFromCompositeFieldPath, FromFieldPath: &from, ToFieldPath: &from, Policy: pol}}},
 		)
 	}
 	xrh.SeedComposition(s, comp)
@@ -119,7 +128,7 @@ func TestCheck(t *testing.T) {
 	)
 	var scs []scenario
 	composers := []string{"pipeline", "pt"}
-	initials := []string{"fresh", "steady", "b-deleted", "param-changed"}
+	initials := []string{"fresh", "steady", "b-deleted", "param-changed", "param-removed", "b-undesired"}
 	if report.Thorough() {
 		for _, c := range composers {
 			for _, in := range append(initials, "a-ctrl-stripped") {
@@ -172,6 +181,7 @@ func body(r *explore.Run, sc scenario, rep *report.R) {
 		m = &memo{passed: map[string]bool{}}
 		memos[sc.name()] = m
 	}
+	wantB = true
 	w := setup(r, sc)
 	if m.prepared != nil {
 		w.s = m.prepared.Clone()
@@ -206,6 +216,12 @@ func body(r *explore.Run, sc scenario, rep *report.R) {
 			s.Mutate(xrh.XRKey("xr1"), func(u *unstructured.Unstructured) {
 				_ = unstructured.SetNestedField(u.Object, "p2", "spec", "param")
 			})
+		case "param-removed":
+			// A required patch source disappears: rendering fails for a
+			// while (the field is restored after the faulty window).
+			s.Mutate(xrh.XRKey("xr1"), func(u *unstructured.Unstructured) {
+				unstructured.RemoveNestedField(u.Object, "spec", "param")
+			})
 		case "a-ctrl-stripped":
 			for _, o := range s.All(xrh.ResA.GroupKind()) {
 				s.Mutate(simkube.KeyOf(o), func(u *unstructured.Unstructured) { u.SetOwnerReferences(nil) })
@@ -222,6 +238,9 @@ func body(r *explore.Run, sc scenario, rep *report.R) {
 	}
 	xrh.BeginExecution(7)
 	xrh.MapOrder(sc.order)
+	// From here on the function may stop desiring b (its output changes
+	// between reconciles; resource names keep their kind).
+	wantB = sc.initial != "b-undesired"
 
 	// --- invariants after every effective write ---
 	s.OnWrite = append(s.OnWrite, func(rec *simkube.WriteRecord) { w.invariants(rec.Call.String()) })
@@ -242,6 +261,11 @@ func body(r *explore.Run, sc scenario, rep *report.R) {
 		w.invariants(fmt.Sprintf("after reconcile %d", i))
 	}
 
+	if sc.initial == "param-removed" {
+		s.Mutate(xrh.XRKey("xr1"), func(u *unstructured.Unstructured) {
+			_ = unstructured.SetNestedField(u.Object, "p1", "spec", "param")
+		})
+	}
 	// --- fault-free continuation to quiescence (memoised per state: the
 	// continuation is a deterministic function of the store) ---
 	contKey := report.Hash(s.Canonical(), w.namesKey())
@@ -261,7 +285,11 @@ func body(r *explore.Run, sc scenario, rep *report.R) {
 	for _, o := range xrh.ComposedOf(s, xr.GetUID(), composedKinds...) {
 		got[o.GetAnnotations()["crossplane.io/composition-resource-name"]] = o.GetKind() + "/" + o.GetName()
 	}
-	for _, n := range []string{"a", "b"} {
+	want := []string{"a", "b"}
+	if !wantB && sc.composer == "pipeline" {
+		want = []string{"a"}
+	}
+	for _, n := range want {
 		if got[n] == "" {
 			r.Failf("final/missing/"+sc.composer, "at quiescence desired resource %q does not exist (refs %v, composed %v)", n, refs, got)
 		}
@@ -275,8 +303,11 @@ func body(r *explore.Run, sc scenario, rep *report.R) {
 			r.Failf("I1/unreferenced-at-quiescence/"+sc.composer, "composed %s not in refs %v", got[n], refs)
 		}
 	}
-	if len(refs) != 2 {
-		r.Failf("final/refs/"+sc.composer, "at quiescence spec.resourceRefs = %v, want exactly the two desired resources", refs)
+	if len(refs) != len(want) {
+		r.Failf("final/refs/"+sc.composer, "at quiescence spec.resourceRefs = %v, want exactly the desired resources %v", refs, want)
+	}
+	if len(got) != len(want) {
+		r.Failf("I1/leak-at-quiescence/"+sc.composer, "at quiescence the XR controls %v but desires only %v", got, want)
 	}
 
 	m.passed[contKey] = true
